@@ -187,6 +187,30 @@ def _worker(job):
                 ex, rb, cb = walk(ref0, cigar)
                 if not blocks_equal_modulo_donly((info.read_exons, info.read_blocks), ref0, cigar):
                     res["viol"].append(("alignmentinfo-mismatch", cigar_str(cigar), ref0, str(ex), str(info.read_exons)))
+                # the second CIGAR walker of the tree (concat_gapless_blocks over pysam's gapless blocks, then correct_bam_coords): same exons.
+                # Judged for the shapes a mapper produces: every N-delimited segment has an aligned base, at most one deletion run in front
+                # of its first aligned base and none behind its last one (the function is documented for gapless blocks joined by deletions)
+                segs_, cur_ = [], []
+                for op_, l_ in cigar:
+                    if op_ == 3:
+                        segs_.append(cur_); cur_ = []
+                    elif op_ in (0, 7, 8, 1, 2):
+                        cur_.append(op_)
+                segs_.append(cur_)
+
+                def _plain(sg):
+                    ms = [k_ for k_, o_ in enumerate(sg) if o_ in (0, 7, 8)]
+                    if not ms:
+                        return False
+                    return sum(1 for o_ in sg[:ms[0]] if o_ == 2) <= 1 and not any(o_ == 2 for o_ in sg[ms[-1] + 1:])
+                if all(_plain(sg) for sg in segs_ if sg) and all(sg for sg in segs_):
+                    try:
+                        got2 = common.correct_bam_coords(common.concat_gapless_blocks(a.get_blocks(), a.cigartuples))
+                        res["concat_cases"] = res.get("concat_cases", 0) + 1
+                        if [tuple(x) for x in got2] != [tuple(x) for x in ex]:
+                            res["viol"].append(("concat-gapless-blocks-mismatch", cigar_str(cigar), ref0, str(ex), str(got2)))
+                    except Exception as e:
+                        res["viol"].append(("concat-gapless-blocks-exception", cigar_str(cigar), ref0, repr(e), ""))
                 # second, pysam-based oracle: aligned reference positions must be inside the exons and at exon ends
                 refpos = a.get_reference_positions()
                 cover = set()
@@ -714,6 +738,7 @@ def run(chk, scratch):
             trimmed += res.get("trimmed", 0)
             chk.count("hard_clip_pairs_compared", res.get("hard_clip_pairs", 0))
             chk.count("padding_pairs_compared", res.get("padding_pairs", 0))
+            chk.count("alignments_through_the_second_cigar_walker", res.get("concat_cases", 0))
             chk.count("records_of_one_read_name_through_one_finder", res.get("shared_finder_records", 0))
             chk.count("padding_pairs_same_side_differs", res.get("padding_same_side_differs", 0))
             chk.count("reads_with_exons_entirely_inside_a_tail", res.get("tail_only_exon_cases", 0))
